@@ -217,7 +217,7 @@ _p("C15", modules=["keys", "quic_session_c"], level="proof",
    trusted_base=["cryptography.hazmat.primitives (hashes, hmac, kdf.hkdf)"],
    not_under_contract=["QuicSession.check_key_epoch (epoch counting)", "QUIC v2 label set"])
 
-_p("C03", modules=["robustness", "demux", "ports", "quic_output", "main_run"], level="other",
+_p("C03", modules=["robustness", "demux", "ports", "quic_output", "main_run", "quic_session_c", "quic_keystate"], level="other",
    technique="contract-based deductive verification: exception freedom for arbitrary bytes / states with library calls allowed to fail; routing + frame obligations for isolation",
    level_text="Proved: for ANY TLS record (>= its 5 header bytes), ANY session flag state, ANY version state and a decryptor that fails or returns arbitrary bytes, the "
               "record reaches handle_tls_record through get_tls_records without an exception leaving get_tls_records (all nine record handlers executed from their real "
@@ -252,7 +252,7 @@ _p("C01", modules=["record_protection", "framing", "framing_unbounded", "keys", 
    composition_assumptions=["induction over the record sequence: the Decryptor's per-direction state equals the sender's after the same records"],
    not_under_contract=["Decryptor.inflate (compression)", "Session.handle_tls_client_hello (one slice)"])
 
-_p("C02", modules=["quic_session_c", "quic_output", "demux", "quic_pkn", "keys", "quic_varint", "quic_frame"], level="other",
+_p("C02", modules=["quic_session_c", "quic_keystate", "quic_output", "demux", "quic_pkn", "keys", "quic_varint", "quic_frame"], level="other",
    technique="contract-based deductive verification of the links of the QUIC pipeline; one bounded link; dissector header parsing not under contract",
    level_text="Links discharged on the real code: routing by connection ID / address (demux.quic_routing, any IDs incl. zero-length); header-protection removal and packet-number "
               "reconstruction (C16); keys (C15: Initial once and for all, handshake/0-RTT/1-RTT, key update generations); decrypt_packet opens each packet with the decryptor "
